@@ -1605,7 +1605,8 @@ func (e *ForExpr) Value(ctx *hcl.EvalContext) (cty.Value, hcl.Diagnostics) {
 				continue
 			}
 
-			key, _ = key.Unmark()
+			var convKeyMarks cty.ValueMarks
+			key, convKeyMarks = key.Unmark()
 
 			val, valDiags := e.ValExpr.Value(childCtx)
 			diags = append(diags, valDiags...)
@@ -1616,13 +1617,20 @@ func (e *ForExpr) Value(ctx *hcl.EvalContext) (cty.Value, hcl.Diagnostics) {
 			} else {
 				k := key.AsString()
 				if _, exists := vals[k]; exists {
-					diags = append(diags, &hcl.Diagnostic{
-						Severity: hcl.DiagError,
-						Summary:  "Duplicate object key",
-						Detail: fmt.Sprintf(
+					// We don't know what the key's marks might represent up at
+					// the calling application layer, so we only show the key
+					// itself if it was not marked.
+					detail := "Two different items produced the same key in this 'for' expression. If duplicates are expected, use the ellipsis (...) after the value expression to enable grouping by key."
+					if len(convKeyMarks) == 0 {
+						detail = fmt.Sprintf(
 							"Two different items produced the key %q in this 'for' expression. If duplicates are expected, use the ellipsis (...) after the value expression to enable grouping by key.",
 							k,
-						),
+						)
+					}
+					diags = append(diags, &hcl.Diagnostic{
+						Severity:    hcl.DiagError,
+						Summary:     "Duplicate object key",
+						Detail:      detail,
 						Subject:     e.KeyExpr.Range().Ptr(),
 						Context:     &e.SrcRange,
 						Expression:  e.KeyExpr,
